@@ -314,6 +314,16 @@ def run(chk):
         r4.inst(f"{fi.key}|try-scan")
 
     # ---------------- R04.5 poor-fit disqualification is applied on all paths
+    # ... and on the statistic of *this* fit: the same daily model object fitted twice (rules/daily_errors.refit_outcomes, shared with C16)
+    from rules.common import DAILY_MODEL as _DM, method as _method
+    from rules.daily_errors import refit_outcomes as _refit
+    _dm = chk.repo.cls(*_DM)
+    _fitm, _gem = _method(chk, _dm, "_fit"), _method(chk, _dm, "_get_error_metrics")
+    _ro = _refit(chk, _dm, _fitm, _gem)
+    _cv = _ro.get("CVRMSE") if isinstance(_ro, dict) else None
+    r5.require("raises" not in _ro and bool(_cv) and _cv["ok"], f"{_fitm.key}|refit|gate-statistic", _fitm.where(),
+               f"the CVRMSE the poor-fit gate reads after a second fit of the same object is {_cv['value'] if _cv else _ro} "
+               + ("(of the earlier fit: a poor second fit is not disqualified)" if _cv and _cv.get("stale") else ""), sample={"scenario": "refit"})
     for key, fi in gate_functions.items():
         if fi.name != "fit":
             continue
